@@ -3,62 +3,90 @@
              the implementation did.
     [holds]: the property itself, judged on what the implementation did, against
              the association-list reference (Spec.v). *)
-From Coq Require Import String.
+From Coq Require Import String Strings.Byte Init.Byte.
 From Verif Require Import Lib.Base Lib.Dec Lib.PyStr Gen.PyChars Dict.Common Dict.Heap Dict.Spec.
+
+(** Text literals of a case file are byte strings (several times cheaper for coqc to
+    elaborate than [string] literals); they carry the escaped form that [Lib.Dec.dec]
+    decodes, except that a line feed is written raw ([dec] maps every byte other than a
+    backslash to itself). *)
+Inductive bstr := BS (l : list byte).
+Definition bs_parse (l : list byte) : bstr := BS l.
+Definition bs_print (b : bstr) : list byte := match b with BS l => l end.
+Declare Scope bs_scope.
+Delimit Scope bs_scope with bs.
+Bind Scope bs_scope with bstr.
+String Notation bstr bs_parse bs_print : bs_scope.
+Definition bdec (b : bstr) : str := dec (string_of_list_byte (bs_print b)).
 
 (** raw (literal) forms written by the harness *)
 Inductive rop :=
-| XSet (o : nat) (k v : string)
-| XGet (o : nat) (k : string)
-| XDel (o : nat) (k : string)
-| XIn (o : nat) (k : string)
+| XSet (o : nat) (k v : bstr)
+| XGet (o : nat) (k : bstr)
+| XDel (o : nat) (k : bstr)
+| XIn (o : nat) (k : bstr)
 | XLen (o : nat)
 | XIter (o : nat)
-| XFirst (o : nat) (k : string)
-| XLast (o : nat) (k : string)
-| XBefore (o : nat) (k r : string)
-| XAfter (o : nat) (k r : string)
+| XFirst (o : nat) (k : bstr)
+| XLast (o : nat) (k : bstr)
+| XBefore (o : nat) (k r : bstr)
+| XAfter (o : nat) (k r : bstr)
 | XSort (o : nat)
 | XCopy (o : nat)
 | XReparse (o : nat)
 | XDump (o : nat).
 
 Inductive rout :=
-| YNone | YStr (s : string) | YBool (b : bool) | YNat (n : nat) | YKeys (l : list string)
+| YNone | YStr (s : bstr) | YBool (b : bool) | YNat (n : nat) | YKeys (l : list bstr)
 | YErr (e : err).
 
 Inductive rstart :=
-| ZEmpty | ZDict (its : list (string * string)) | ZParsed (text : string) (its : list (string * string)).
+| ZEmpty | ZDict (its : list (bstr * bstr)) | ZParsed (text : bstr) (its : list (bstr * bstr)).
+
+(** Observations are written compactly (elaborating the literals is what a run
+    costs): a view equal to the previous frame's is omitted, the items of a view
+    may refer to those of a paragraph listed for the same frame, and only the
+    paragraphs whose items differ from the previous frame are listed.
+    [decode_frames] below restores the full frames. *)
+Inductive ritems :=
+| ISame (j : nat)                          (* = the items of paragraph j in this frame *)
+| IList (l : list (bstr * bstr)).
 
 Record rview := mkV {
-  rv_items : list (string * string); rv_len : nat; rv_in : list bool; rv_dump : string }.
+  rv_items : ritems; rv_len : nat;
+  rv_in : N;                                (* bit i: alphabet[i] in d *)
+  rv_dump : bstr }.
 
 Record rframe := mkF {
-  rf_out : rout; rf_view : result rview; rf_all : list (result (list (string * string))) }.
+  rf_out : rout;
+  rf_view : option (result rview);          (* None: the same view as in the previous frame *)
+  rf_n : nat;                               (* number of paragraphs *)
+  rf_upd : list (nat * result (list (bstr * bstr))) }.
+    (* the items of the paragraphs that differ from the previous frame (or are new) *)
 
 Record case := mk {
-  c_lower : list (string * string);   (* (k, k.lower()) wherever str.lower differs from ASCII lower-casing *)
-  c_alpha : list string;              (* the keys probed with [k in d] in every view *)
+  c_lower : list (bstr * bstr);   (* (k, k.lower()) wherever str.lower differs from ASCII lower-casing *)
+  c_alpha : list bstr;              (* the keys probed with [k in d] in every view *)
   c_start : rstart;
   c_ops : list rop;
   c_obs : list rframe;                (* frame 0: after construction; frame i: after operation i *)
 }.
 
-Definition dpairs (l : list (string * string)) : list (str * str) :=
-  map (fun p => (dec (fst p), dec (snd p))) l.
+Definition dpairs (l : list (bstr * bstr)) : list (str * str) :=
+  map (fun p => (bdec (fst p), bdec (snd p))) l.
 
 Definition op_of (x : rop) : op :=
   match x with
-  | XSet o k v => OSet o (dec k) (dec v)
-  | XGet o k => OGet o (dec k)
-  | XDel o k => ODel o (dec k)
-  | XIn o k => OContains o (dec k)
+  | XSet o k v => OSet o (bdec k) (bdec v)
+  | XGet o k => OGet o (bdec k)
+  | XDel o k => ODel o (bdec k)
+  | XIn o k => OContains o (bdec k)
   | XLen o => OLen o
   | XIter o => OIter o
-  | XFirst o k => OFirst o (dec k)
-  | XLast o k => OLast o (dec k)
-  | XBefore o k r => OBefore o (dec k) (dec r)
-  | XAfter o k r => OAfter o (dec k) (dec r)
+  | XFirst o k => OFirst o (bdec k)
+  | XLast o k => OLast o (bdec k)
+  | XBefore o k r => OBefore o (bdec k) (bdec r)
+  | XAfter o k r => OAfter o (bdec k) (bdec r)
   | XSort o => OSort o
   | XCopy o => OCopy o
   | XReparse o => OReparse o
@@ -67,25 +95,59 @@ Definition op_of (x : rop) : op :=
 
 Definition out_of_raw (y : rout) : out :=
   match y with
-  | YNone => RNone | YStr s => RStr (dec s) | YBool b => RBool b | YNat n => RNat n
-  | YKeys l => RKeys (map dec l) | YErr e => RErr e
+  | YNone => RNone | YStr s => RStr (bdec s) | YBool b => RBool b | YNat n => RNat n
+  | YKeys l => RKeys (map bdec l) | YErr e => RErr e
   end.
 
 Definition start_of (z : rstart) : start :=
   match z with
   | ZEmpty => SEmpty
   | ZDict its => SDict (dpairs its)
-  | ZParsed t its => SParsed (dec t) (dpairs its)
+  | ZParsed t its => SParsed (bdec t) (dpairs its)
   end.
 
 Definition map_result {A B} (f : A -> B) (r : result A) : result B :=
   match r with Ok a => Ok (f a) | Err e => Err e end.
 
-Definition frame_of_raw (f : rframe) : frame :=
-  mkFrame (out_of_raw (rf_out f))
-    (map_result (fun v => mkView (dpairs (rv_items v)) (rv_len v) (rv_in v) (dec (rv_dump v)))
-       (rf_view f))
-    (map (map_result dpairs) (rf_all f)).
+Fixpoint assoc_nat {A} (j : nat) (l : list (nat * A)) : option A :=
+  match l with
+  | [] => None
+  | (i, a) :: l' => if Nat.eqb i j then Some a else assoc_nat j l'
+  end.
+
+Definition expand_all (prev : list (result items)) (n : nat)
+    (upd : list (nat * result (list (bstr * bstr)))) : list (result items) :=
+  map (fun j => match assoc_nat j upd with
+                | Some r => map_result dpairs r
+                | None => match nth_error prev j with Some p => p | None => Err OtherError end
+                end) (seq 0 n).
+
+Definition view_of_raw (nalpha : nat) (all : list (result items)) (v : rview) : view :=
+  mkView
+    (match rv_items v with
+     | IList l => dpairs l
+     | ISame j => match nth_error all j with Some (Ok its) => its | _ => [] end
+     end)
+    (rv_len v)
+    (map (fun i => N.testbit (rv_in v) (N.of_nat i)) (seq 0 nalpha))
+    (bdec (rv_dump v)).
+
+(** the observed frames, decoded; [prev] = the items of every paragraph in the previous
+    frame, [pview] = the view of the previous frame *)
+Fixpoint decode_frames (nalpha : nat) (prev : list (result items)) (pview : result view)
+    (fs : list rframe) : list frame :=
+  match fs with
+  | [] => []
+  | f :: fs' =>
+      let all := expand_all prev (rf_n f) (rf_upd f) in
+      let v := match rf_view f with
+               | Some rv => map_result (view_of_raw nalpha all) rv
+               | None => pview
+               end in
+      mkFrame (out_of_raw (rf_out f)) v all :: decode_frames nalpha all v fs'
+  end.
+
+Definition case_obs (c : case) : list frame := decode_frames (length (c_alpha c)) [] (Err OtherError) (c_obs c).
 
 (** [str.lower]: ASCII lower-casing, overridden by the interpreter's answers
     carried in the case for keys with non-ASCII cased letters. *)
@@ -167,13 +229,13 @@ Definition model_frames (lower : str -> str) (alpha : list str) (s : start) (xs 
   :: trace lower alpha w xs.
 
 Definition model_trace (c : case) : list frame :=
-  model_frames (case_lower c) (map dec (c_alpha c)) (start_of (c_start c)) (map op_of (c_ops c)).
+  model_frames (case_lower c) (map bdec (c_alpha c)) (start_of (c_start c)) (map op_of (c_ops c)).
 
 (** A case outside the declared domain counts as a correspondence failure: the
     generator has to stay inside, so that [agree c = true -> holds c = true]
     (Props/C09.v no. 4) applies to every case of a passing run. *)
 Definition agree (c : case) : bool :=
-  case_in_domain c && list_eqb frame_eqb (model_trace c) (map frame_of_raw (c_obs c)).
+  case_in_domain c && list_eqb frame_eqb (model_trace c) (case_obs c).
 
 (** ** the property *)
 Definition ref_frame (lower : str -> str) (alpha : list str) (nb : nat) (x : op) (r : out)
@@ -213,8 +275,8 @@ Definition holds_frames (lower : str -> str) (alpha : list str) (s : start) (xs 
   end.
 
 Definition holds (c : case) : bool :=
-  holds_frames (case_lower c) (map dec (c_alpha c)) (start_of (c_start c)) (map op_of (c_ops c))
-    (map frame_of_raw (c_obs c)).
+  holds_frames (case_lower c) (map bdec (c_alpha c)) (start_of (c_start c)) (map op_of (c_ops c))
+    (case_obs c).
 
 Definition bad_agree (cs : list case) : list N := bad agree cs.
 Definition bad_holds (cs : list case) : list N := bad holds cs.
